@@ -12,6 +12,7 @@ return plain ndarrays equal to NumPy's; the rounding/modulo family must raise on
 from __future__ import annotations
 
 import inspect
+import itertools
 import numbers
 import operator as _operator
 import random
@@ -349,6 +350,12 @@ def function_spellings():
                         mk("out=Tensor", "ufuncOutTensor", f"{lab}(a,0.4,0.7,out=o)", lambda o, f=f: f(o[0], 0.4, 0.7, out=o[1]), ("oT",))
                         mk("out=ndarray", "ufuncOutNdarray", f"{lab}(a,0.4,0.7,out=o)", lambda o, f=f: f(o[0], 0.4, 0.7, out=o[1]), ("oA",))
                     mk("out=Tensor", "method", "a.clip(0.4,0.7,out=o)", lambda o: o[0].clip(0.4, 0.7, out=o[1]), ("oT",))
+                if nname == "clip" and vlab in ("0.4,None", "None,0.7"):
+                    lo, hi = (0.4, None) if vlab == "0.4,None" else (None, 0.7)
+                    for lab, f in (("mg.clip", mgf), ("np.clip", npf)):
+                        mk("out=Tensor", "ufuncOutTensor", f"{lab}(a,{vlab},out=o)", lambda o, f=f, lo=lo, hi=hi: f(o[0], lo, hi, out=o[1]), ("oT",))
+                        mk("out=ndarray", "ufuncOutNdarray", f"{lab}(a,{vlab},out=o)", lambda o, f=f, lo=lo, hi=hi: f(o[0], lo, hi, out=o[1]), ("oA",))
+                    mk("out=Tensor", "method", f"a.clip({vlab},out=o)", lambda o, lo=lo, hi=hi: o[0].clip(lo, hi, out=o[1]), ("oT",))
                 if nname in ("concatenate", "stack") and "axis" not in vlab:
                     for lab, f in ((f"mg.{family}", mgf), (f"np.{nname}", npf)):
                         mk("out=Tensor", "ufuncOutTensor", f"{lab}([a,b],out=o)", lambda o, f=f: f([o[0], o[1]], out=o[2]), ("oT*",))
@@ -915,6 +922,11 @@ def check_group(args):
             if d is not None:
                 out["fails"].append({"family": sps[0].family, "a": sps[0].ident(), "b": sp.ident(), "what": d, "seed": seed,
                                      "ref": _short(ref, d), "got": _short(r, d)})
+        # an out= spelling returns its target (the very Tensor / a tensor over the very ndarray), whatever the others do
+        for sp, r in zip(sps, recs):
+            if "out=" in sp.form and not r.get("exc") and r.get("returns-target") is False:
+                out["fails"].append({"family": sp.family, "a": sp.ident(), "b": sp.ident(), "what": "out-target-not-returned", "seed": seed,
+                                     "ref": "the result is the out= target", "got": "another object / other memory"})
         if out["sample"] is None:
             out["sample"] = {"operation": key[0], "operands": key[1], "form": key[2], "spellings": [sp.label for sp in sps],
                              "result_dtype": ref.get("dtype"), "exception": ref.get("exc")}
@@ -1060,6 +1072,55 @@ def extra_family_spellings():
         ("np.floor_divide(arr,a)", lambda a: np.floor_divide(np.ones(a.shape), a)),
         ("np.divmod(a,a)", lambda a: np.divmod(a, a)), ("np.trunc(a,where=m)", lambda a: np.trunc(a, where=np.ones(a.shape, bool))),
     ]
+
+
+def masked_view_target_oracle():
+    """`ufunc(a, b, where=m, out=<Tensor that is a view>)` against the functional spelling `mg.where(m, ufunc(a, b), view)`:
+    values and the gradients of the operands and of the tensor that holds the target's *old* contents (the masked-out
+    entries send their gradient there, mapped through the view).  -> (failures, number of cases)"""
+    fails, n = [], 0
+    VIEWS = [("x[...]", (4,), lambda t: t[...]), ("x[::-1]", (4,), lambda t: t[::-1]), ("x.T", (3, 3), lambda t: t.T),
+             ("x[1:]", (4,), lambda t: t[1:]), ("x[:, ::-1]", (2, 3), lambda t: t[:, ::-1])]
+    UF = [("multiply", 2, mg.multiply, np.multiply), ("add", 2, mg.add, np.add), ("exp", 1, mg.exp, np.exp)]
+    for (vn, shape, view), (un, nin, mf, nf), route in itertools.product(VIEWS, UF, ("mg", "np")):
+        n += 1
+        rng = random.Random(f"c11mv:{vn}:{un}")
+        grads = []
+        for spelling in ("out", "functional"):
+            src = mg.tensor(np.array([rng_v for rng_v in np.linspace(0.2, 1.7, int(np.prod(shape)))]).reshape(shape))
+            base = +src
+            v = view(base)
+            ops = [mg.tensor(np.linspace(0.3, 0.9, v.size).reshape(v.shape) + 0.1 * k) for k in range(nin)]
+            m = (np.arange(v.size).reshape(v.shape) % 3 != 1)
+            W = np.linspace(-1.0, 2.0, v.size).reshape(v.shape)
+            try:
+                if spelling == "out":
+                    r = (mf if route == "mg" else nf)(*ops, where=m, out=v)
+                    if r is not v:
+                        fails.append(_mv_fail(un, vn, route, "returns-target", "the call did not return its out= target", ""))
+                else:
+                    r = mg.where(m, mf(*ops), v)
+                (r * W).sum().backward()
+            except Exception as e:  # noqa: BLE001
+                grads.append(f"raised {type(e).__name__}")
+                continue
+            grads.append([np.array(r.data)] + [None if t.grad is None else np.array(t.grad) for t in ops + [src]])
+        a, b = grads
+        if isinstance(a, str) or isinstance(b, str):
+            if a != b:
+                fails.append(_mv_fail(un, vn, route, "raises", str(a)[:60], str(b)[:60]))
+            continue
+        names = ["value"] + [f"grad[{'ab'[k]}]" for k in range(nin)] + ["grad[old contents of the target's base]"]
+        for nm, x, y in zip(names, a, b):
+            if (x is None) != (y is None) or (x is not None and not np.allclose(x, y, rtol=1e-12, atol=0)):
+                fails.append(_mv_fail(un, vn, route, nm, None if x is None else str(x.tolist()), None if y is None else str(y.tolist())))
+                break
+    return fails, n
+
+
+def _mv_fail(un, vn, route, what, got, ref):
+    return {"family": un, "a": {"label": f"{'mg' if route == 'mg' else 'np'}.{un}(…, where=m, out=<view {vn}>)", "probe": "T"},
+            "b": {"label": f"mg.where(m, mg.{un}(…), view)"}, "kind": "masked-view-target", "what": what, "got": got, "ref": ref}
 
 
 def kwarg_variant_oracle():
@@ -1239,6 +1300,10 @@ def run(ctx: Ctx) -> Outcome:
     kfails, kfacts = kwarg_variant_oracle()
     out.evaluations += len(kfacts)
     fails += kfails
+    mfails, mn = masked_view_target_oracle()
+    out.evaluations += mn
+    fails += mfails
+    out.stats["masked_view_target_cases"] = mn
     out.extra["op_specific_keyword_options"] = kfacts
     # ---- the recorded table must cover everything that is registered
     if missing:
@@ -1289,6 +1354,11 @@ def route_disagreements(routes):
 
 def replay(data) -> bool:
     f = data["replay"]
+    if f.get("kind") == "masked-view-target":
+        fails, _ = masked_view_target_oracle()
+        hit = [x for x in fails if signature(x) == data["signature"]]
+        print("observed:", [(x["a"]["label"], x["what"], x["got"], x["ref"]) for x in hit] or "holds")
+        return bool(hit)
     if f.get("kind") == "kwarg-variant":
         fails, facts = kwarg_variant_oracle()
         hit = [x for x in fails if signature(x) == data["signature"]]
@@ -1344,4 +1414,4 @@ MANIFEST = {
             "independently executes every spelling. Trusted: the spy (30 lines), the option normaliser, NumPy dispatch.",
 }
 
-MANIFEST_ADDENDUM = "Oracle additions: op-specific keyword options (absolute's nan_to_num) through every spelling that accepts them, at the points where they matter; the rounding/modulo family's refusal of non-constant tensors also inside no_autodiff."
+MANIFEST_ADDENDUM = "Oracle additions: ufunc(…, where=m, out=<Tensor view>) against the functional spelling mg.where(m, ufunc(…), view) for 5 kinds of view (values, operand gradients, gradient reaching the old contents of the view's base); op-specific keyword options (absolute's nan_to_num) through every spelling that accepts them, at the points where they matter; the rounding/modulo family's refusal of non-constant tensors also inside no_autodiff."
